@@ -21,7 +21,8 @@ Hdr == Traces[tid]
 Ev == Traces[tid].ev
 Cur == Ev[l]
 TSw == Traces[tid].sw
-Faithful == TSw.ri /\ TSw.kc /\ TSw.km /\ TSw.uz /\ ~TSw.zs
+\* (with the first block at an index above 0 the index-0 sentinel cannot show)
+Faithful == TSw.ri /\ TSw.kc /\ TSw.km /\ TSw.uz /\ (~TSw.zs \/ Base > 0)
 
 TInit == /\ TLCSet(1, {})
          /\ tid \in 1..Len(Traces) /\ l = 1
@@ -55,6 +56,12 @@ Matches(e) ==
                  /\ LbiOk'
                  /\ \A c \in 0..KMax : e.bal[c + 1] = IdealBalance(wview, c)'
 
+\* the state logged after a prefix of a delivery's operations (when they were handed over one by one)
+MatchMid(r, m) ==
+  /\ [q \in OPs |-> Enc(r.s[q])] = m.ws
+  /\ r.lb = m.lbi
+  /\ \A c \in 0..KMax : Balance(r.s, r.lb, c, TSw) = m.bal[c + 1]
+
 Same == UNCHANGED <<txin, own, cont, pend, atomic, phase, ndel, nmem, nsend, nrew, tid>>
 
 TDeliver == /\ l <= Len(Ev) /\ Cur.a = "D"
@@ -64,6 +71,8 @@ TDeliver == /\ l <= Len(Ev) /\ Cur.a = "D"
             /\ \E r \in {RunOps(Cur.ops)} :
                  ws' = r.s /\ lbi' = r.lb /\ wview' = r.v /\ seen' = r.sn
             /\ wview' = chain'
+            /\ Len(Cur.mid) \in {0, Len(Cur.ops)}
+            /\ \A j \in 1..Len(Cur.mid) : \E r \in {RunOps(SubSeq(Cur.ops, 1, j))} : MatchMid(r, Cur.mid[j])
             /\ UNCHANGED <<mseen, sent>> /\ Same
             /\ Matches(Cur)
             /\ l' = l + 1
